@@ -43,7 +43,7 @@ func (f *fake) Status() pool.ConnStatus         { return pool.ConnStatus{} }
 
 var (
 	gridSeqnos = [7]uint32{0, 1, 2, 3, 1000, 1001, 1002}
-	gridRtts   = [4]time.Duration{250 * time.Microsecond, 1100 * time.Microsecond, 1100 * time.Microsecond, 1900 * time.Microsecond} // two equal, two that differ by less than a millisecond
+	gridRtts   = [4]time.Duration{0, 1100 * time.Microsecond, 1100 * time.Microsecond, 1900 * time.Microsecond} // a round trip below the clock resolution (0: the fastest there is), two equal, two that differ by less than a millisecond
 	strategies = [2]pool.Strategy{pool.BestPingStrategy, pool.FirstWorkingConnection}
 	// connection ids by position in the list handed to the pool: variant 0 = configuration order,
 	// variant 1 = permuted and non-contiguous ids (the pool orders its members by id).
